@@ -153,7 +153,11 @@ frg::expected<format_error> printf_format(A agent, const char *s, va_struct *vsp
 		}else{
 			int w = 0;
 			while(*s >= '0' && *s <= '9') {
-				w = w * 10 + (*s - '0');
+				// Saturate instead of overflowing.
+				if(w <= (__INT_MAX__ - (*s - '0')) / 10)
+					w = w * 10 + (*s - '0');
+				else
+					w = __INT_MAX__;
 				++s;
 				FRG_ASSERT(*s);
 			}
@@ -172,7 +176,11 @@ frg::expected<format_error> printf_format(A agent, const char *s, va_struct *vsp
 				int value = 0;
 				// If no integer follows the '.', then precision is taken to be zero
 				while(*s >= '0' && *s <= '9') {
-					value = value * 10 + (*s - '0');
+					// Saturate instead of overflowing.
+					if(value <= (__INT_MAX__ - (*s - '0')) / 10)
+						value = value * 10 + (*s - '0');
+					else
+						value = __INT_MAX__;
 					++s;
 					FRG_ASSERT(*s);
 				}
